@@ -10,6 +10,7 @@ from datetime import timedelta
 
 from hv import boot  # noqa: F401
 from hv.core import Result, viol
+from hv.exckit import OWN_CLASSES, make_own
 from hv.vloop import Livelock
 from hv.vtime import START, now
 from hv.world import Chooser, World
@@ -20,8 +21,8 @@ ID = "C15"
 TECHNIQUE = "exhaustive enumeration of arrival patterns on a P/2 grid x all tie orders of equal-deadline timers, real throttle in exact virtual time"
 RULE = (
     "n calls with inter-arrival gaps in {0, P/2, P, 3P/2}, limit 1..3, period as float or "
-    "timedelta, call duration in {0, P/2, 2P}, optionally one failing call; all orders of timers "
-    "sharing a deadline; sub-family with one caller cancelled at any quiescent point (window / order "
+    "timedelta, call duration in {0, P/2, 2P}, optionally one failing call (own exception class, or one of 13 built-in classes a wrapper might handle itself); all orders of timers "
+    "sharing a deadline, sub-family with two equal-deadline timers landing in one loop iteration; sub-family with one caller cancelled at any quiescent point (window / order "
     "/ outcome of the other calls); non-trivial = at least one call was delayed or more than `limit` calls "
     "arrived within one period"
 )
@@ -63,6 +64,24 @@ def programs(tier: str):
                                 "fail": fail,
                             }
     yield from _cancel_programs(tier)
+    # two timers due at the same instant (an arrival and the wake-up of a delayed call) landing in
+    # the same loop iteration: the arrival then runs between the sleeper's release of the lock and
+    # the resumption of the calls queued behind it
+    for n in ((3, 4, 5) if tier == "quick" else (3, 4, 5, 6)):
+        for gaps in itertools.product(GAPS, repeat=n - 1):
+            for limit in (1, 2, 3):
+                if limit >= n - 1:
+                    continue
+                yield {"gaps": list(gaps), "limit": limit, "dur": 0.5, "period": "float", "fail": None, "batch": 2}
+    # the failing call ends with an exception of a class the wrapper might handle internally
+    # (TypeError, LookupError, TimeoutError ...): same window, same object handed back
+    for n in (2, 3):
+        for gaps in itertools.product(GAPS[:3], repeat=n - 1):
+            for limit in (1, 2):
+                for dur in (0.0, 0.5):
+                    for fail in (0, n - 1):
+                        for c in range(len(OWN_CLASSES)):
+                            yield {"gaps": list(gaps), "limit": limit, "dur": dur, "period": "float", "fail": fail, "errclass": c}
     for limit in (1, 2):
         for gaps in ([0.0, 0.0], [0.0, 0.5, 0.0], [0.5, 0.5]):
             yield {"gaps": gaps, "limit": limit, "dur": 0.5, "period": "float", "fail": None, "attrs": True}
@@ -86,13 +105,15 @@ def execute(program, ch: Chooser) -> Result:  # noqa: C901, PLR0912, PLR0915
     P = PERIODS[program["period"]]
     gaps, limit, dur, fail = [g * P for g in program["gaps"]], program["limit"], program["dur"] * P, program["fail"]
     n = len(gaps) + 1
-    w = World(ch, cancel_budget=program.get("cancels", 0))
+    w = World(ch, cancel_budget=program.get("cancels", 0), batch=program.get("batch", 1))
     viols: list[dict] = []
     try:
         starts: list[tuple[int, float]] = []
         arrivals: list[tuple[int, float]] = []
         results: dict[int, tuple] = {}
-        errs = {i: TErr(f"e{i}") for i in range(n)}
+        errs: dict[int, BaseException] = {i: TErr(f"e{i}") for i in range(n)}
+        if "errclass" in program:
+            errs = {i: make_own(OWN_CLASSES[program["errclass"]], f"e{i}") for i in range(n)}
 
         async def fn(i):
             starts.append((i, now() - START))
@@ -115,7 +136,9 @@ def execute(program, ch: Chooser) -> Result:  # noqa: C901, PLR0912, PLR0915
             arrivals.append((i, now() - START))
             try:
                 results[i] = ("value", await fn(i))
-            except TErr as exc:
+            except asyncio.CancelledError:
+                raise
+            except Exception as exc:  # noqa: BLE001
                 results[i] = ("raised", exc is errs[i])
 
         at = 0.0
